@@ -67,6 +67,18 @@ CHECKS = {
        "(rejects exactly '..', idempotent, never grows), which is value-level.",
   note="trusted: the list of name sinks per entry point in sa/props/c18.py",
   technique="static analysis: dominance rules + def-use dataflow (data independence) on LLVM IR"),
+ "C13": dict(
+  text="Static error discipline over the link closures of all four tools: ERR = int functions that can return non-zero "
+       "and reach an allocator / I/O call / file-stream slot (call-graph fix-point with slot resolution); E1 every ERR "
+       "result is used, E2 no failure edge falls straight into 'return 0', E3 every allocator result is NULL-tested "
+       "(directly or through the location it was stored to) before dereference and realloc never clobbers the only copy; "
+       "packers: every exit after a successful sqfs_writer_init passes sqfs_writer_cleanup, EXIT_SUCCESS only from the "
+       "success edge of sqfs_writer_finish, cleanup unlinks; all mains: exit status 0 unreachable from any failure edge "
+       "(branch-consistent reachability); submit failures propagate; single-owner block hand-over (no double free on "
+       "error paths); truncated archive input is an error in the archive layer (T1/T2). Decides that every fault reaches "
+       "a decision on all paths; does not decide that the handling is right, nor exit 0 => fault-free bytes.",
+  note="trusted: tables of fallible libc functions / allocators in sa/errflow.py; one reasoned E1 exception",
+  technique="static analysis: error-propagation / unused-result / null-check dataflow and must-pass-through rules on LLVM IR"),
 }
 
 NA_DEFAULT = "rules designed in DESIGN.md, not implemented yet (work in progress)"
